@@ -92,6 +92,9 @@ pub mod oneshot {
     impl<T> Sender<T> {
         #[verifier::external_body]
         pub fn send(self, v: T) -> (r: Result<(), T>) ensures answered(self, v) { unimplemented!() }
+        // whether the receiving half is gone: ANY answer (it depends on the requester, not on this state)
+        #[verifier::external_body]
+        pub fn is_closed(&self) -> bool { unimplemented!() }
     }
 }
 use oneshot::answered;
@@ -104,6 +107,16 @@ impl<T> VecDeque<T> {
     pub fn is_empty(&self) -> (r: bool) ensures r == (self@.len() == 0) { unimplemented!() }
     #[verifier::external_body]
     pub fn push_back(&mut self, v: T) ensures final(self)@ == old(self)@.push(v) { unimplemented!() }
+    #[verifier::external_body]
+    pub fn front(&self) -> (r: Option<&T>) ensures match r { Some(x) => self@.len() > 0 && *x == self@[0], None => self@.len() == 0 } { unimplemented!() }
+    #[verifier::external_body]
+    pub fn back(&self) -> (r: Option<&T>) ensures match r { Some(x) => self@.len() > 0 && *x == self@[self@.len() - 1], None => self@.len() == 0 } { unimplemented!() }
+    #[verifier::external_body]
+    pub fn len(&self) -> (r: usize) ensures r == self@.len() { unimplemented!() }
+    #[verifier::external_body]
+    pub fn pop_front(&mut self) -> (r: Option<T>)
+        ensures match r { Some(x) => old(self)@.len() > 0 && x == old(self)@[0] && final(self)@ == old(self)@.subrange(1, old(self)@.len() as int), None => old(self)@.len() == 0 && final(self)@ == old(self)@ }
+    { unimplemented!() }
     // rule R27: `drain(..)` used as a for-loop source: all elements in order, the deque is left empty
     #[verifier::external_body]
     pub fn drain_all(&mut self) -> (r: Vec<T>) ensures r@ == old(self)@, final(self)@.len() == 0 { unimplemented!() }
